@@ -142,6 +142,33 @@ def run(ctx):
                 w = [int(round(2 * jj * SJ)) * int(uu) for jj, uu in zip(Js, u)]
                 reqs.append(dict(op="majorana", nV=n, edges=idx.tolist(), w=w, gauge_at=vs[:6]))
                 meta.append((tag, l, H, gauged[:6]))
+    # ---- bisection on large lattices (more than 1000 vertices; no spectra): the halves must separate every dimer of a perfect-matching colour class,
+    #      the edge order, crossings and vertex set must be kept, and the new vertex i must be the old vertex order[i] of a permutation
+    from koala import voronization as vz
+    from koala.graph_color import color_lattice
+    big = [("honey24", *eg.honeycomb_lattice(24, return_coloring=True))]
+    lv = vz.generate_lattice(rng.uniform(size=(520 if quick else 900, 2)))
+    big.append((f"vor{lv.n_vertices // 2}", lv, color_lattice(lv)))
+    for name, l, c in big:
+        n, idx = l.n_vertices, l.edges.indices
+        for along in range(3):
+            tag = f"{name}:bisect-large:{along}"
+            rep = lambda what, **kw: ctx.impl_violation(f"{tag}: {what}", dict(case=tag, generator=name, along=along, **kw))
+            try:
+                bl = ham.bisect_lattice(l, c, along)
+            except Exception as ex:
+                rep(f"bisect_lattice raised {type(ex).__name__}: {ex}"); continue
+            if not (np.array_equal(bl.edges.crossing, l.edges.crossing) and bl.n_edges == l.n_edges
+                    and np.array_equal(np.sort(bl.vertices.positions, axis=0), np.sort(l.vertices.positions, axis=0))):
+                rep("bisect_lattice does not keep the edge order / crossings / vertex set"); continue
+            cls = idx[c == along]
+            if len(cls) * 2 == n and len(set(cls.flatten().tolist())) == n:
+                be = bl.edges.indices[c == along]
+                bad = int(np.sum((be[:, 0] < n // 2) == (be[:, 1] < n // 2)))
+                if bad:
+                    rep(f"bisection along the perfect-matching colour {along} leaves {bad} of {len(be)} dimers inside one half"); continue
+                ctx.count("bisections_along_perfect_matching")
+            ctx.case((tag,), nontrivial=True)
     outs = core.Driver().run_parallel(reqs)
     for (tag, l, H, gauged), o in zip(meta, outs):
         brk = lambda what: ctx.corr_break(f"{tag}: {what}", dict(case=tag, lattice=zoo.lat_to_json(l)))
